@@ -58,6 +58,10 @@ def c04(rec, state=None):
     out = []
     state = state if state is not None else {}
     tainted = state.setdefault('tainted', set())
+    # servers re-attached since the last cycle: remember which instances travelled with them
+    for sid in state.pop('moved', set()):
+        if sid in rec['before']['servers']:
+            state.setdefault('moved_apps', {})[sid] = set(rec['before']['servers'][sid]['apps'])
     aft = rec['after']
     apps, servers, buckets = aft['apps'], aft['servers'], aft['buckets']
     cnt = _true_counts(aft)
@@ -84,9 +88,17 @@ def c04(rec, state=None):
                 sites = sorted({direct[b] for b in under if b in direct})
                 if sites:
                     tainted.add((node, ap['aff']))
+                # a populated server that was re-attached under this node since it was populated (topology change)
+                moved = state.get('moved_apps', {})
+                if any(s2id in moved and (node == s2id or node in s2['chain']) and
+                       any(b in apps and b in moved[s2id] and apps[b]['aff'] == ap['aff'] for b in s2['apps'])
+                       for s2id, s2 in servers.items()):
+                    state.setdefault('tainted_topo', set()).add((node, ap['aff']))
                 sig = 'affinity-limit-exceeded'
                 if level != 0 and (node, ap['aff']) in tainted:
                     sig = 'affinity-limit-exceeded-above-server-level-after-direct-put'
+                elif level != 0 and (node, ap['aff']) in state.get('tainted_topo', ()):
+                    sig = 'affinity-limit-exceeded-above-server-level-after-topology-change'
                 out.append((sig, 'node %d (level %d): %d instances of affinity %d, limit %d (direct puts this cycle: %s)'
                             % (node, level, cnt[node][ap['aff']], ap['aff'], lim, ','.join(sites) or '-')))
     return out
@@ -312,6 +324,10 @@ def run_oracle(pid, trace):
                 state['srv'][args[1]] = ('up', rec.get('now'))
             elif args and args[0] == 'RemoveServer':
                 state['srv'].pop(args[1], None)
+                state.setdefault('moved', set()).discard(args[1])
+                state.setdefault('moved_apps', {}).pop(args[1], None)
+            elif args and args[0] == 'MoveServer':
+                state.setdefault('moved', set()).add(args[1])
             elif args and args[0] == 'SetState' and args[1] in state['srv']:
                 if state['srv'][args[1]][0] != STATE_NAMES[args[2]]:
                     state['srv'][args[1]] = (STATE_NAMES[args[2]], args[3])
